@@ -32,7 +32,7 @@ PLAIN_NAMES = ["f", "g", "h", "pred", "f"]
 
 
 def budget(tier):
-    return 40 if tier == "quick" else 1200
+    return 40 if tier == "quick" else 600
 
 
 def pred_cfg():
